@@ -276,7 +276,7 @@ func runC08(c *Ctx) {
 	if c.Thorough() {
 		bigPct, wrBigPermille = 20, 12
 	}
-	nMux := c.Budget(2500, 15000)
+	nMux := c.Budget(2200, 15000)
 	for i := 0; i < nMux; i++ {
 		mc := genMuxCase(c.Rng, c.Count, c.Thorough())
 		res := doMux(mc)
@@ -328,7 +328,7 @@ func runC08(c *Ctx) {
 		svcOut = nil
 	}
 	// ---- generated tag sequences through the real writer ----
-	nWr := c.Budget(4000, 30000)
+	nWr := c.Budget(3500, 30000)
 	for i := 0; i < nWr; i++ {
 		doWr(genWrCase(c.Rng, c.Count))
 	}
